@@ -401,6 +401,73 @@ Proof.
   destruct out; reflexivity.
 Qed.
 
+(* --- the window follows the SERVER clock only (relative expiry) --- *)
+(* Two servers whose clocks differ by a constant d (and whose stored expiries differ accordingly) answer
+   every history identically: the period script never sees an absolute time, so a caller whose own
+   clock is ahead of or behind the server's by any amount observes the same codes. *)
+Definition shift_entry (d : Z) (e : entry) : entry := (fst e, option_map (fun x => x + d) (snd e)).
+Definition shift_store (d : Z) (s : store) : store := map (fun kv => (fst kv, shift_entry d (snd kv))) s.
+
+Lemma lookup_shift d k (s : store) :
+  alookup Nat.eqb k (shift_store d s) = option_map (shift_entry d) (alookup Nat.eqb k s).
+Proof.
+  induction s as [|[k' e] r IH]; [reflexivity|]. cbn [shift_store map alookup fst snd].
+  destruct (Nat.eqb k k'); [reflexivity|exact IH].
+Qed.
+
+Lemma aremove_shift d k (s : store) : rdel k (shift_store d s) = shift_store d (rdel k s).
+Proof.
+  unfold rdel. induction s as [|[k' e] r IH]; [reflexivity|]. cbn [shift_store map aremove fst snd].
+  destruct (Nat.eqb k k'); [exact IH|]. cbn [map fst snd]. f_equal. exact IH.
+Qed.
+
+Lemma rset_shift d k e (s : store) : rset k (shift_entry d e) (shift_store d s) = shift_store d (rset k e s).
+Proof. unfold rset, aset. cbn [shift_store map fst snd]. f_equal. apply aremove_shift. Qed.
+
+Lemma live_shift d t e : live (t + d) (shift_entry d e) = live t e.
+Proof. destruct e as [v [x|]]; unfold live, shift_entry; cbn [fst snd option_map]; [lia|reflexivity]. Qed.
+
+Lemma rget_shift d t k (s : store) : rget (t + d) k (shift_store d s) = option_map (shift_entry d) (rget t k s).
+Proof.
+  unfold rget. rewrite lookup_shift. destruct (alookup Nat.eqb k s) as [e|]; [|reflexivity].
+  cbn [option_map]. rewrite live_shift. destruct (live t e); reflexivity.
+Qed.
+
+Lemma incrby_shift d t k x (s : store) :
+  incrby (t + d) k x (shift_store d s) = (shift_store d (fst (incrby t k x s)), snd (incrby t k x s)).
+Proof.
+  unfold incrby. rewrite rget_shift. destruct (rget t k s) as [[v ex]|]; cbn [option_map shift_entry fst snd].
+  - rewrite <- rset_shift. reflexivity.
+  - rewrite <- rset_shift. reflexivity.
+Qed.
+
+Lemma expire_shift d t k w (s : store) : expire (t + d) k w (shift_store d s) = shift_store d (expire t k w s).
+Proof.
+  unfold expire. rewrite rget_shift. destruct (rget t k s) as [[v ex]|]; cbn [option_map shift_entry fst snd]; [|reflexivity].
+  destruct (w <=? 0); [apply aremove_shift|]. rewrite <- rset_shift. unfold shift_entry. cbn [fst snd option_map].
+  replace (t + d + 1000 * w) with (t + 1000 * w + d) by lia. reflexivity.
+Qed.
+
+Lemma take_shift d t up k q w (s : store) :
+  take (t + d) up k q w (shift_store d s) = (shift_store d (fst (take t up k q w s)), snd (take t up k q w s)).
+Proof.
+  unfold take. destruct up; [|reflexivity]. unfold period_script. rewrite incrby_shift.
+  destruct (incrby t k 1 s) as [s1 cur]. cbn [fst snd].
+  destruct (cur =? 1); [rewrite expire_shift|]; reflexivity.
+Qed.
+
+Lemma prun_shift d ops : forall t (s : store),
+  prun (t + d, shift_store d s) ops = prun (t, s) ops /\
+  pfinal (t + d, shift_store d s) ops = (fst (pfinal (t, s) ops) + d, shift_store d (snd (pfinal (t, s) ops))).
+Proof.
+  induction ops as [|o r IH]; intros t s; [split; reflexivity|].
+  destruct o as [x|k q w up|]; cbn [prun pfinal pstep fst snd].
+  - replace (t + d + x) with (t + x + d) by lia. apply IH.
+  - rewrite take_shift. destruct (take t up k q w s) as [s' res]. cbn [fst snd].
+    destruct (IH t s') as [I1 I2]. rewrite I1, I2. split; reflexivity.
+  - apply (IH t []).
+Qed.
+
 (* ===================================================================================== *)
 (* C. token limiter: the Lua script refines the bucket of Spec.v                            *)
 (* ===================================================================================== *)
@@ -750,12 +817,20 @@ Proof.
   - intro M. unfold l1, start_monitor. rewrite M. reflexivity.
 Qed.
 
-(* F3: a done context is a plain refusal: no switch, no monitor, nothing consumed anywhere *)
+(* F3: a done context -- done before the call, or expiring while the call is in flight -- is a plain
+   refusal: no switch, no monitor, nothing taken from the in-process bucket; Redis is untouched unless
+   the in-flight script still ran on the server (then only the server-side bucket can have shrunk) *)
 Lemma reserve_ctx_done c w l now n cx : alive l = true -> cx <> CtxOk ->
-  reserve c w l now n cx = (w, l, false).
+  snd (reserve c w l now n cx) = false /\
+  snd (fst (reserve c w l now n cx)) = l /\
+  (cx <> CtxInFlight true -> fst (fst (reserve c w l now n cx)) = w).
 Proof.
-  intros A N. unfold reserve. rewrite A. cbn [negb].
-  destruct cx; [congruence| |]; cbn [eval_token]; rewrite world_eta; reflexivity.
+  intros A N. unfold reserve. rewrite A. cbn [negb]. destruct w as [ck st eu pu].
+  destruct cx as [| | |[|]]; [congruence| | | |]; cbn [eval_token clock rstore eval_up ping_up];
+    try (repeat split; reflexivity).
+  destruct eu; [|repeat split; reflexivity].
+  destruct (token_script ck (c_ktok c) (c_kts c) (c_rate c) (c_burst c) (now / 1000) n st) as [[s' ok]|];
+    cbn [fst snd]; repeat split; try reflexivity; intro H; congruence.
 Qed.
 
 (* F4: a healthy call is decided by the script (Lua true -> 1, Lua false -> redis.Nil -> false);
